@@ -139,7 +139,7 @@ pub fn record(out: &str, n: usize, seed: u64) {
         let mut total_events = 0usize;
         let mut do_run = |ps: &[asca::Phrase], it: &mut Intern, calls: &mut Vec<Value>| {
             let input = ids_of(ps, it);
-            let rec = v::record(60_000, true, false, || v::run_loop(&rules, ps));
+            let rec = crate::util::rec(60_000, true, false, || v::run_loop(&rules, ps));
             let ret = match &rec.result {
                 Ok(Ok(res)) => json!({"ok": true, "out": ids_of(res, it)}),
                 Ok(Err(e)) => json!({"ok": false, "err": it.err(e)}),
@@ -159,7 +159,7 @@ pub fn record(out: &str, n: usize, seed: u64) {
         // the tracer on every line
         for p in &phrases {
             let input: Vec<i64> = p.iter().map(|w| it.word(w)).collect();
-            let rec = v::record(60_000, true, false, || v::trace_loop(&rules, p));
+            let rec = crate::util::rec(60_000, true, false, || v::trace_loop(&rules, p));
             let ret = match &rec.result {
                 Ok(Ok(ch)) => json!({"ok": true, "changes": ch.iter().map(|c| json!([c.rule_index, c.after.iter().map(|w| it.word(w)).collect::<Vec<_>>()])).collect::<Vec<_>>()}),
                 Ok(Err(e)) => json!({"ok": false, "err": it.err(e)}),
@@ -187,7 +187,7 @@ pub fn record(out: &str, n: usize, seed: u64) {
 
 fn run_keyed(groups: &[RuleGroup], lines: &[String], into: &[String]) -> Result<Vec<String>, String> {
     let (g, l, i) = (groups.to_vec(), lines.to_vec(), into.to_vec());
-    let rec = v::record(30_000, false, false, move || asca::run(&g, &l, &i, &[]));
+    let rec = crate::util::rec(30_000, false, false, move || asca::run(&g, &l, &i, &[]));
     match rec.result {
         Ok(Ok(v)) => Ok(v),
         Ok(Err(e)) => Err(err_key(&e)),
@@ -208,6 +208,7 @@ fn group_by(rules: &[String], sizes: &[usize]) -> Vec<RuleGroup> {
 }
 
 const AMERICANIST: [char; 5] = ['¢', 'ƛ', 'λ', 'ł', 'ñ'];
+pub const EXOTIC: [&str; 14] = ["tã", "ẽ.na", "kɚ", "sǝ.ma", "ℏa.ta", "'ta.na", "ta:.ka", "t^sa", "pa;ta", "sĩ,na", "ɝn", "ꭤ.tℇ", "ℎa", "tõ.kũ"];
 
 fn pick_rules(c: &Corpus, rng: &mut Rng, n: usize) -> (Vec<String>, Vec<String>, Vec<String>) {
     // returns (rules, into-aliases, word pool)
@@ -225,6 +226,9 @@ fn pick_rules(c: &Corpus, rng: &mut Rng, n: usize) -> (Vec<String>, Vec<String>,
         rules.push(rng.pick(pool).clone());
     }
     let mut words = c.test_words.clone();
+    // words typed with the input spellings the manual allows besides plain IPA: precomposed letters and look-alikes that the library normalises,
+    // ASCII stress / length / tie marks (every entry point - run, trace_changes, get_trace_string - must read them alike)
+    for w in EXOTIC { words.push(w.to_string()); }
     if n >= 2 && !c.gen_pairs.is_empty() && rng.chance(1, 2) {
         // an observer pair: the later rule reads what the earlier one wrote; on words of the generator's inventory
         let (a, b) = rng.pick(&c.gen_pairs).clone();
@@ -286,7 +290,7 @@ pub fn replay_schedules() {
                         if mid.iter().any(|s| s.contains('\u{FFFD}') || s.trim().is_empty()) { sum.count("c10_unrenderable_intermediate", 1); continue; }
                         let (r2, l2, i2) = (rules[..k].to_vec(), line.clone(), into.clone());
                         let tb = &tabs;
-                        let guard = v::record(30_000, false, false, move || -> Result<bool, asca::Error> {
+                        let guard = crate::util::rec(30_000, false, false, move || -> Result<bool, asca::Error> {
                             let al = v::parse_aliases(&i2, &[])?;
                             let rs = v::parse_rules(&[RuleGroup::from_rules(r2)])?;
                             let mut c09 = false;
@@ -322,6 +326,8 @@ pub fn replay_schedules() {
                     for _ in 0..rules.len() { sizes[rng.below(ng)] += 1; }
                     let groups = group_by(&rules, &sizes);
                     let mut lines: Vec<String> = (0..n).map(|_| { let mut l = rng.pick(&words).clone(); if rng.chance(1, 3) { l = format!("{} {}", l, rng.pick(&words)); } l }).collect();
+                    // the library keeps a leading blank and doubled blanks of a line (they delimit empty words): such lines are lines too
+                    for l in lines.iter_mut() { if rng.chance(1, 8) { *l = format!(" {l}"); } else if l.contains(' ') && rng.chance(1, 6) { *l = l.replacen(' ', "  ", 1); } }
                     // notation twins: the same word typed in americanist and in IPA notation, next to each other (in one line or in adjacent lines)
                     if into.is_empty() && rng.chance(1, 4) {
                         const TWINS: [(&str, &str); 5] = [("¢a", "t͡sa"), ("ła.ta", "ɬa.ta"), ("ña", "ɲa"), ("aƛ", "at͡ɬ"), ("λo", "d͡ɮo")];
@@ -378,9 +384,9 @@ pub fn replay_schedules() {
                     let kw = vec["k"].as_u64().unwrap() as usize;
                     let phrase = (0..kw).map(|_| rng.pick(&words).clone()).collect::<Vec<_>>().join(" ");
                     let (g, p, i) = (groups.clone(), phrase.clone(), into.clone());
-                    let rec = v::record(30_000, false, false, move || asca::trace_changes(&g, p, &i).map(|ch| ch.iter().map(|c| (c.rule_index, c.after.iter().map(|w| v::render_word(w, &v::no_aliases())).collect::<Vec<_>>().join(" "))).collect::<Vec<_>>()));
+                    let rec = crate::util::rec(30_000, false, false, move || asca::trace_changes(&g, p, &i).map(|ch| ch.iter().map(|c| (c.rule_index, c.after.iter().map(|w| v::render_word(w, &v::no_aliases())).collect::<Vec<_>>().join(" "))).collect::<Vec<_>>()));
                     let (g, p, i) = (groups.clone(), phrase.clone(), into.clone());
-                    let rec2 = v::record(30_000, false, false, move || asca::get_trace_string(&g, p, &i));
+                    let rec2 = crate::util::rec(30_000, false, false, move || asca::get_trace_string(&g, p, &i));
                     let runs: Vec<Result<Vec<String>, String>> = (0..=groups.len()).map(|m| run_keyed(&groups[..m], &[phrase.clone()], &into)).collect();
                     let full = runs.last().unwrap().clone();
                     let tracer_budget = rec.result.is_err() || rec2.result.is_err();      // the tracer panicked or ran out of budget: C02's domain
